@@ -29,6 +29,9 @@ type Baton struct {
 	// that tools/autoyield inserts around mutex operations in the scratch copy of the
 	// tree ("auto:<path>:<func>:<n>:<kind>"); auto points elsewhere never park.
 	Auto []string
+	// AutoSkip lists fragments of auto site names that never park (periodic
+	// housekeeping whose boundaries would only dilute the schedule).
+	AutoSkip []string
 	// ParkHolding allows a task to park while it holds an instrumented mutex. Safe
 	// when every goroutine that may want that mutex is itself scheduled by the baton
 	// (it is then kept parked at its Acquire point until the mutex is free).
@@ -137,6 +140,11 @@ func (b *Baton) LockHook(mutex uintptr, delta int, exclusive bool) {
 
 func (b *Baton) allowed(site string) bool {
 	if strings.HasPrefix(site, "auto:") {
+		for _, f := range b.AutoSkip {
+			if strings.Contains(site, f) {
+				return false
+			}
+		}
 		for _, p := range b.Auto {
 			if strings.HasPrefix(site[5:], p) {
 				return true
